@@ -1,11 +1,317 @@
 /-
-  (placeholder, filled in by the C12 work) run-decision model of `xvc pipeline run`.
+  Executable model of the run decision of `xvc pipeline run`
+  (`/repo/pipeline/src/pipeline/mod.rs`: `the_grand_pipeline_loop`, the `s_checking_*` / `s_comparing_*`
+  handlers; `deps/compare.rs`; `core/src/types/diff.rs`: `Diff::changed`, `update_with_actual`).
+
+  Core only.  Every definition names the Rust function it transcribes.
+
+  The model mirrors the code **after** `/verif/patches/C12-F7.patch`:
+  (a) `s_checking_thorough_diffs_f_superficial_diffs_changed` looks only at the step's own dependencies
+      (the current tree walks the `dependency_diffs` map shared by all step threads);
+  (b) `s_comparing_diffs_and_outputs_f_thorough_diffs_not_changed` also asks whether a dependency step
+      ran (the current tree does not).
+  The pre-patch decision is kept as `decideRunUnpatched` for the two counterexample theorems.
+
+  Abstractions:
+  * a dependency is what the comparison functions see of it: recorded (metadata, content) — or nothing
+    before the first successful run — and actual (metadata, content), as opaque numbers; "content" is,
+    per kind, the file digest, the path→digest map, the parameter value, the selected lines or their
+    digest, the command output digest.  For the `--glob` (digest) kind the thorough comparison also
+    looks at the metadata digest (`GlobDep::diff_thorough`): flag `metaCounts`.
+  * step threads are replaced by a fold in topological order (dependencies first): a step decides
+    after all its dependency steps are finished, and with patch (a) it reads nothing of unrelated
+    steps, so the executed set does not depend on the schedule (C10 proves the ordering).
+  * process exit status and missing output files are oracles (`fails`, `missing`).
 -/
 namespace Inval
 
-structure DState where
-  dummy : Nat := 0
+/-- `XvcStepInvalidate`. -/
+inductive Mode where
+  | byDeps
+  | always
+  | never
+  deriving DecidableEq, Repr
 
-def driverStep (st : DState) (_line : String) : DState × String := (st, "bad-op")
+/-- `XvcStepState` at the end of a step thread. -/
+inductive St where
+  | doneRun      -- `DoneByRunning`
+  | doneSkip     -- `DoneWithoutRunning`
+  | broken       -- `Broken`
+  deriving DecidableEq, Repr
+
+def St.done : St → Bool
+  | .broken => false
+  | _ => true
+
+/-- A recorded / actual observation of a dependency: (metadata, content). -/
+abbrev Obs := Nat × Nat
+
+/-- What the comparison functions see of one dependency entity. -/
+structure Dep where
+  /-- `GlobDep::diff_thorough` also compares the metadata digest -/
+  metaCounts : Bool
+  /-- the record in `XvcStore<XvcDependency>`; `none` = no metadata/digest recorded yet -/
+  recorded : Option Obs
+  /-- what is on disk now -/
+  actual : Obs
+
+/-- `diff_superficial(record, actual).changed()`: `RecordMissing`, or the metadata differ. -/
+def Dep.supChanged (d : Dep) : Bool :=
+  match d.recorded with
+  | none => true
+  | some r => decide (r.1 ≠ d.actual.1)
+
+/-- `diff_thorough(record, actual).changed()`: `RecordMissing`, or the content differs (for the glob
+    digest kind: or the metadata digest differs). -/
+def Dep.thChanged (d : Dep) : Bool :=
+  match d.recorded with
+  | none => true
+  | some r => decide (r.2 ≠ d.actual.2) || (d.metaCounts && decide (r.1 ≠ d.actual.1))
+
+/-- The diff left in `dependency_diffs` for this dependency is `changed()`: the thorough comparison is
+    made only for superficially changed dependencies, the others get `Diff::Skipped`. -/
+def Dep.finalChanged (d : Dep) : Bool := d.supChanged && d.thChanged
+
+/-- One step of the pipeline. `explicit` = `--step` dependencies, `implicit` = steps producing a file
+    this step depends on (`add_implicit_dependencies`); both as positions in the topological order. -/
+structure Step where
+  mode : Mode
+  /-- ids of the step's non-step dependency entities -/
+  deps : List Nat
+  explicit : List Nat
+  implicit : List Nat
+
+/-- `dependency_steps(step_e, graph)`: explicit and implicit edges. -/
+def Step.upstream (s : Step) : List Nat := s.explicit ++ s.implicit
+
+/-- `all_deps.children_of(step_e)` is non-empty (step dependencies are children too). -/
+def Step.hasDeps (s : Step) : Bool := !(s.deps.isEmpty && s.explicit.isEmpty)
+
+/-- A pipeline, steps numbered in a topological order of the dependency graph (`toposort`). -/
+structure Pipe where
+  n : Nat
+  step : Nat → Step
+  metaCounts : Nat → Bool
+
+/-- Dependencies come before dependents. -/
+def Pipe.WF (p : Pipe) : Prop := ∀ i, i < p.n → ∀ u, u ∈ (p.step i).upstream → u < i
+
+/-- `RunConditions`. -/
+structure RunConditions where
+  never : Bool
+  always : Bool
+  ignoreBrokenDepSteps : Bool
+  ignoreMissingOutputs : Bool
+
+/-- The three literals `run_never`, `run_calculated`, `run_always` and the
+    `match consider_changed[step_e]` of `the_grand_pipeline_loop` (a `by_dependencies` step without any
+    dependency gets `run_always`). -/
+def runConditions (s : Step) : RunConditions :=
+  match s.mode with
+  | .never => { never := true, always := false, ignoreMissingOutputs := false, ignoreBrokenDepSteps := false }
+  | .always => { never := false, always := true, ignoreMissingOutputs := true, ignoreBrokenDepSteps := true }
+  | .byDeps =>
+    if s.hasDeps then
+      { never := false, always := false, ignoreBrokenDepSteps := false, ignoreMissingOutputs := true }
+    else { never := false, always := true, ignoreMissingOutputs := true, ignoreBrokenDepSteps := true }
+
+/-- The recorded store and the workspace, per dependency id; `clock` supplies fresh values for edits. -/
+structure World where
+  recorded : Nat → Option Obs
+  actual : Nat → Obs
+  clock : Nat
+
+def depOf (p : Pipe) (w : World) (d : Nat) : Dep :=
+  { metaCounts := p.metaCounts d, recorded := w.recorded d, actual := w.actual d }
+
+/-- `s_checking_superficial_diffs`: no dependency at all counts as changed. -/
+def superficialChanged (p : Pipe) (w : World) (s : Step) : Bool :=
+  !s.hasDeps || s.deps.any fun d => (depOf p w d).supChanged
+
+/-- `s_checking_thorough_diffs_f_superficial_diffs_changed` (patched: own dependencies only). -/
+def thoroughChanged (p : Pipe) (w : World) (s : Step) : Bool :=
+  !s.hasDeps || s.deps.any fun d => (depOf p w d).finalChanged
+
+/-- The `s_comparing_diffs_and_outputs_*` handlers composed with the two checks before them:
+    does the step go to `WaitingToRun`?  `upstreamRan`: some dependency step is `DoneByRunning`;
+    `missing`: an `ActualMissing` entry in `output_diffs`. -/
+def decideRun (p : Pipe) (w : World) (s : Step) (upstreamRan missing : Bool) : Bool :=
+  let rc := runConditions s
+  if superficialChanged p w s then
+    if thoroughChanged p w s then true                       -- `…_f_thorough_diffs_changed`
+    else rc.always || missing || upstreamRan                 -- `…_f_thorough_diffs_not_changed` (patch (b))
+  else rc.always || upstreamRan || missing                   -- `…_f_superficial_diffs_not_changed`
+
+/-- The decision of the unpatched tree: the thorough pass ORs the diffs of every dependency `visible`
+    in the shared map at that moment (the step's own ones are always there), and
+    `…_f_thorough_diffs_not_changed` ignores dependency steps. -/
+def decideRunUnpatched (p : Pipe) (w : World) (s : Step) (visible : List Nat) (upstreamRan missing : Bool) :
+    Bool :=
+  let rc := runConditions s
+  if superficialChanged p w s then
+    if !s.hasDeps || (s.deps ++ visible).any (fun d => (depOf p w d).finalChanged) then true
+    else rc.always || missing
+  else rc.always || upstreamRan || missing
+
+def upd {α : Type} (f : Nat → α) (k : Nat) (v : α) : Nat → α := fun j => if j = k then v else f j
+
+/-- What happened to one step. -/
+structure Outcome where
+  ran : Bool
+  st : St
+
+/-- One step thread from `Begin` to its final state, given the final states `σ` of the steps before it.
+    `s_begin_f_init`, `s_waiting_dependency_steps_*` (all dependency steps done ⇒ go on; all broken ⇒
+    go on only with `ignore_broken_dep_steps`; a mix of done and broken polls forever in the current
+    tree (F5) and becomes broken with the scheduler fix — the checks never build such a pipeline),
+    `s_checking_missing_outputs` (nothing is recorded when missing outputs are ignored), the decision,
+    and the process exit status. -/
+def stepOutcome (p : Pipe) (w : World) (fails missing : Nat → Bool) (σ : Nat → St) (i : Nat) : Outcome :=
+  let s := p.step i
+  let rc := runConditions s
+  if rc.never then { ran := false, st := .doneSkip }
+  else
+    let ups := s.upstream
+    let allDone := ups.all fun u => (σ u).done
+    let allBroken := ups.all fun u => !(σ u).done
+    if allDone || (allBroken && rc.ignoreBrokenDepSteps) then
+      let upstreamRan := ups.any fun u => decide (σ u = .doneRun)
+      let miss := !rc.ignoreMissingOutputs && missing i
+      if decideRun p w s upstreamRan miss then
+        { ran := true, st := if fails i then .broken else .doneRun }
+      else { ran := false, st := .doneSkip }
+    else { ran := false, st := .broken }
+
+structure RunState where
+  st : Nat → St
+  ran : Nat → Bool
+
+/-- The first `k` steps of the topological order. -/
+def runUpTo (p : Pipe) (w : World) (fails missing : Nat → Bool) : Nat → RunState
+  | 0 => { st := fun _ => .doneSkip, ran := fun _ => false }
+  | k + 1 =>
+    let r := runUpTo p w fails missing k
+    let o := stepOutcome p w fails missing r.st k
+    { st := upd r.st k o.st, ran := upd r.ran k o.ran }
+
+/-- Is `d` a dependency of a step that compared its dependencies in this run (every step but the
+    `never` ones, when the run was successful)? -/
+def compared (p : Pipe) (d : Nat) : Bool :=
+  (List.range p.n).any fun i => !(runConditions (p.step i)).never && (p.step i).deps.contains d
+
+/-- `update_with_actual(store, diffs, true, true)`: `RecordMissing` / `Different` ⇒ the record becomes
+    the actual value; `Identical` / `Skipped` ⇒ untouched (in particular the metadata of a touched,
+    unchanged file is *not* refreshed). -/
+def updateRecorded (p : Pipe) (w : World) : Nat → Option Obs :=
+  fun d => if compared p d && (depOf p w d).finalChanged then some (w.actual d) else w.recorded d
+
+structure Result where
+  ran : Nat → Bool
+  st : Nat → St
+  allDone : Bool
+  world : World
+
+/-- `the_grand_pipeline_loop`: all step threads, then "We only save the stores if the pipeline was run
+    successfully" (every state `DoneByRunning` / `DoneWithoutRunning`). -/
+def runPipeline (p : Pipe) (w : World) (fails missing : Nat → Bool) : Result :=
+  let r := runUpTo p w fails missing p.n
+  let allDone := (List.range p.n).all fun i => (r.st i).done
+  { ran := r.ran, st := r.st, allDone := allDone
+    world := if allDone then { w with recorded := updateRecorded p w } else w }
+
+/-- The journal: which step commands were started, in topological order. -/
+def Result.executed (p : Pipe) (r : Result) : List Nat := (List.range p.n).filter r.ran
+
+/-! ## histories -/
+
+/-- User edits between runs, per affected dependency entity, and runs. -/
+inductive Ev where
+  /-- the content the dependency selects changes (and with it the file's metadata) -/
+  | edit (d : Nat)
+  /-- the file is rewritten / touched, the selected content stays (an unselected line, another key) -/
+  | touch (d : Nat)
+  | addGlobMember (d : Nat)
+  | rmGlobMember (d : Nat)
+  | setParam (d : Nat)
+  | run (fails missing : Nat → Bool)
+
+def bumpBoth (w : World) (d : Nat) : World :=
+  { w with actual := upd w.actual d (w.clock, w.clock), clock := w.clock + 1 }
+
+def bumpMeta (w : World) (d : Nat) : World :=
+  { w with actual := upd w.actual d (w.clock, (w.actual d).2), clock := w.clock + 1 }
+
+def applyEv (p : Pipe) (w : World) : Ev → World
+  | .edit d => bumpBoth w d
+  | .addGlobMember d => bumpBoth w d
+  | .rmGlobMember d => bumpBoth w d
+  | .setParam d => bumpBoth w d
+  | .touch d => bumpMeta w d
+  | .run fails missing => (runPipeline p w fails missing).world
+
+def applyHistory (p : Pipe) (w : World) (h : List Ev) : World := h.foldl (applyEv p) w
+
+/-- A freshly defined pipeline: nothing recorded, every dependency present with some content. -/
+def World.init : World := { recorded := fun _ => none, actual := fun _ => (0, 0), clock := 1 }
+
+/-! ## line-protocol driver state (used by `Main.lean`) -/
+
+structure DState where
+  pipe : Pipe := { n := 0, step := fun _ => { mode := .byDeps, deps := [], explicit := [], implicit := [] },
+                   metaCounts := fun _ => false }
+  world : World := World.init
+
+def parseNats (s : String) : Option (List Nat) :=
+  if s == "-" then some [] else (s.splitOn ",").mapM String.toNat?
+
+def showNats (l : List Nat) : String := if l.isEmpty then "-" else ",".intercalate (l.map toString)
+
+def showSt : St → String
+  | .doneRun => "R"
+  | .doneSkip => "S"
+  | .broken => "B"
+
+/-- requests:
+    `pipe <n>` · `step <i> <d|a|n> <deps> <explicit> <implicit>` · `mc <dep>` (glob digest kind) ·
+    `edit|touch|add|rm|param <dep>` · `run <failing steps> <steps with missing outputs>` -/
+def driverStep (st : DState) (line : String) : DState × String :=
+  match line.trimAscii.toString.splitOn " " with
+  | ["pipe", n] =>
+    match n.toNat? with
+    | some n => ({ pipe := { st.pipe with n := n }, world := World.init }, "ok")
+    | none => (st, "bad-op")
+  | ["step", i, m, ds, ex, im] =>
+    match i.toNat?, parseNats ds, parseNats ex, parseNats im with
+    | some i, some ds, some ex, some im =>
+      let mode := match m with | "a" => some Mode.always | "n" => some Mode.never | "d" => some Mode.byDeps | _ => none
+      match mode with
+      | some mode =>
+        ({ st with pipe := { st.pipe with step := upd st.pipe.step i { mode := mode, deps := ds, explicit := ex, implicit := im } } }, "ok")
+      | none => (st, "bad-op")
+    | _, _, _, _ => (st, "bad-op")
+  | ["mc", d] =>
+    match d.toNat? with
+    | some d => ({ st with pipe := { st.pipe with metaCounts := upd st.pipe.metaCounts d true } }, "ok")
+    | none => (st, "bad-op")
+  | [op, d] =>
+    match d.toNat? with
+    | some d =>
+      let ev := match op with
+        | "edit" => some (Ev.edit d) | "touch" => some (Ev.touch d) | "add" => some (Ev.addGlobMember d)
+        | "rm" => some (Ev.rmGlobMember d) | "param" => some (Ev.setParam d) | _ => none
+      match ev with
+      | some ev => ({ st with world := applyEv st.pipe st.world ev }, "ok")
+      | none => (st, "bad-op")
+    | none => (st, "bad-op")
+  | ["run", fs, ms] =>
+    match parseNats fs, parseNats ms with
+    | some fs, some ms =>
+      let r := runPipeline st.pipe st.world (fun i => fs.contains i) (fun i => ms.contains i)
+      let states := (List.range st.pipe.n).map fun i => showSt (r.st i)
+      ({ st with world := r.world },
+       s!"exec={showNats (r.executed st.pipe)} states={"".intercalate states} alldone={if r.allDone then 1 else 0}")
+    | _, _ => (st, "bad-op")
+  | [""] => (st, "")
+  | _ => (st, "bad-op")
 
 end Inval
